@@ -561,6 +561,63 @@ Proof.
 Qed.
 
 
+(* whatever the outcome: no node is started twice, and every started node got the input its
+   predecessors determine *)
+Lemma run_eager_log pick : forall fuel s running O log out log' left,
+  RI s running O log ->
+  run_eager pick g fuel s running log = (out, log', left) ->
+  NoDup (map fst log') /\
+  (forall y i, In (y, i) log' -> y <> END /\ exists n, In n g /\ n_id n = y /\ dins (n_preds n) i).
+Proof.
+  induction fuel as [|f IH]; intros s running O log out log' left R E; simpl in E.
+  - inversion E; subst. split; [apply (ri_log_nd _ _ _ _ R)|apply (ri_log_in _ _ _ _ R)].
+  - set (i := Nat.modulo (pick running) (List.length running)) in *.
+    destruct (nth_error running i) as [[n inp]|] eqn:En.
+    + assert (Hin : In (n, inp) running) by (eapply nth_error_In; eassumption).
+      destruct (ri_run _ _ _ _ R n inp Hin) as (A1 & A2 & A3 & A4 & A5).
+      destruct (failed (n, inp)) eqn:Ef.
+      * inversion E; subst. split; [apply (ri_log_nd _ _ _ _ R)|apply (ri_log_in _ _ _ _ R)].
+      * assert (Hf : n_fail n = 0%N).
+        { unfold failed in Ef. simpl in Ef. apply negb_false_iff in Ef. apply N.eqb_eq in Ef. exact Ef. }
+        set (rest := remove_nth i running) in *.
+        pose proof (nth_error_remove_perm running i _ En) as P. fold rest in P.
+        assert (Pids : Permutation (ids_of running) (n_id n :: ids_of rest)).
+        { unfold ids_of. apply (Permutation_map (fun t : node * val => n_id (fst t))) in P. exact P. }
+        assert (Est : forall y, started running O y <->
+                                (In y (ids_of rest) \/ y = n_id n \/ In y (map fst O))).
+        { intros y. unfold started. split.
+          - intros [K|K]; [|auto]. apply (Permutation_in _ Pids) in K. destruct K as [K|K]; auto.
+          - intros [K|[K|K]]; [left|left|right; exact K].
+            + apply (Permutation_in _ (Permutation_sym Pids)). right; exact K.
+            + apply (Permutation_in _ (Permutation_sym Pids)). left; auto. }
+        pose proof (step_generic s rest O log (n_id n) (node_out (n_id n) inp)) as G. cbv zeta in G.
+        assert (Hnd2 : NoDup (ids_of rest ++ n_id n :: map fst O)).
+        { apply (Permutation_NoDup (l := ids_of running ++ map fst O)); [|apply (ri_nd _ _ _ _ R)].
+          eapply perm_trans; [apply Permutation_app_tail, Pids|]. simpl. apply Permutation_middle. }
+        unfold run_task in E. simpl fst in E. simpl snd in E.
+        specialize (G (CL_iff _ _ _ _ Est (ri_cl _ _ _ _ R)) (ri_O _ _ _ _ R)
+                      (dv_node n inp A1 Hf A3 A4) (ri_dom _ _ _ _ R)
+                      (or_intror (in_map n_id _ _ A1)) Hnd2).
+        assert (Hrun : forall n0 i0, In (n0, i0) rest ->
+                 In n0 g /\ n_id n0 <> END /\ n_preds n0 <> [] /\ dins (n_preds n0) i0 /\
+                 (forall p, In p (n_preds n0) -> In p (map fst O))).
+        { intros n0 i0 K. apply (ri_run _ _ _ _ R). apply (Permutation_in _ (Permutation_sym P)). right; exact K. }
+        assert (Hdone : forall n0, In n0 g -> In (n_id n0) (n_id n :: map fst O) ->
+                 forall p, In p (n_preds n0) -> In p (map fst O)).
+        { intros n0 Hin0 [K|K] p Hp.
+          - assert (n0 = n) by (apply node_eq; auto). subst n0. apply A5, Hp.
+          - apply (ri_done _ _ _ _ R n0 Hin0 K p Hp). }
+        specialize (G Hrun Hdone A2 (ri_noend _ _ _ _ R) (ri_log_nd _ _ _ _ R) (ri_log_in _ _ _ _ R)).
+        assert (Hlst : forall y, In y (map fst log) <->
+                 ((In y (ids_of rest) \/ y = n_id n \/ In y (map fst O)) /\ y <> START)).
+        { intros y. rewrite (ri_log_st _ _ _ _ R), Est. reflexivity. }
+        specialize (G Hlst).
+        destruct (calc_next Dag g s [(n_id n, node_out (n_id n) inp)]) as [vE|ts s'] eqn:Ec.
+        -- inversion E; subst. split; [apply (ri_log_nd _ _ _ _ R)|apply (ri_log_in _ _ _ _ R)].
+        -- exact (IH _ _ _ _ _ _ _ G E).
+    + inversion E; subst. split; [apply (ri_log_nd _ _ _ _ R)|apply (ri_log_in _ _ _ _ R)].
+Qed.
+
 Lemma eager_spec pick fuel out log left :
   eager pick g fuel = (out, log, left) ->
   match out with
@@ -839,4 +896,17 @@ Proof.
   destruct o as [v'| |]; [| |congruence].
   - destruct (done_unique g Hnd Hs _ _ _ _ _ _ D D2) as [-> P]. eauto.
   - exfalso. exact (done_ok_fail_absurd g Hnd _ _ _ D D2).
+Qed.
+
+Lemma eager_starts_each_node_once g pick f out log left :
+  NoDup (map n_id g) -> ~ In START (map n_id g) ->
+  eager pick g f = (out, log, left) ->
+  NoDup (map fst log) /\ (forall y i, In (y, i) log -> y <> END /\ In y (map n_id g)).
+Proof.
+  intros Hnd Hs. unfold eager. pose proof (start_ri g Hnd Hs) as S0.
+  destruct (start_next Dag g) as [vE|ts s].
+  - intros E. inversion E; subst. split; [constructor|intros y i []].
+  - intros E. destruct (run_eager_log g Hnd Hs pick f s ts _ _ _ _ _ S0 E) as [A B].
+    split; [exact A|]. intros y i K. destruct (B y i K) as (K1 & n & K2 & K3 & _).
+    split; [exact K1|]. rewrite <- K3. apply in_map, K2.
 Qed.
